@@ -11,6 +11,7 @@ code -> spec: harness.dslgen statements (all up to a depth bound) and each singl
 """
 import collections
 import concurrent.futures
+import hashlib
 import itertools
 import json
 import multiprocessing
@@ -295,7 +296,8 @@ def _replay_lines(lines):
     for e in lines:
         key = e['k']
         ast = expand(key, al)
-        if e['ast'].get('t') != 'nil' and g.canon(e['ast']) != g.canon(ast):
+        acanon = g.canon(ast)
+        if e['ast'] and e['ast'] != digest(acanon):
             fails.append(('MACHINERY expand mirror differs from Statements.tla Expand', {'key': key}, '!'))
             continue
         base = {'kind': 'transition', 'alphabet': al['name'], 'hist': e['h']}
@@ -307,7 +309,7 @@ def _replay_lines(lines):
         # the statement itself: identity and schema
         stats['states'] += 1
         got = g.project(obj)
-        if g.canon(got) != g.canon(ast):
+        if g.canon(got) != acanon:
             fail(f'statement built by calls {e["h"]} is not the statement the builder rules give',
                  dict(base, expected=ast, observed=got), ast, 'verdict')
             continue
@@ -344,18 +346,18 @@ def _replay_lines(lines):
                          'raised' if res != 'ok' else 'set_verdict' if c['m'] == 'set' else 'verdict')
                 continue
             nxt = next_key(key, exp)
-            nast, ncanon = _expanded(nxt, al)
+            ndigest = _expanded(nxt, al)
             stats['accepted:' + c['m']] += 1
             if res != 'ok':
                 fail(f'{c["m"]} call {ci} on {obj!r} conforms to the grammar but raised ' +
                      ('GrammarError' if res == 'grammar' else res[6:]),
-                     dict(base, call=ci, expected='ok', observed=res), nast,
+                     dict(base, call=ci, expected='ok', observed=res), expand(nxt, al),
                      'raised' if res != 'grammar' else 'set_verdict' if c['m'] == 'set' else 'verdict')
                 continue
             got = g.project(succ)
-            if g.canon(got) != ncanon:
+            if digest(g.canon(got)) != ndigest:
                 fail(f'{c["m"]} call {ci} on {obj!r} returned {succ!r}, not the statement the documented update gives',
-                     dict(base, call=ci, expected=nast, observed=got), nast, 'verdict')
+                     dict(base, call=ci, expected=expand(nxt, al), observed=got), expand(nxt, al), 'verdict')
                 continue
             if len(samples) < 2 and len(e['h']) >= 2:
                 samples.append({'calls': [al['calls'][i - 1] for i in e['h']] + [c], 'statement': repr(succ)})
@@ -365,11 +367,16 @@ def _replay_lines(lines):
 _EXPANDED = {}
 
 
+def digest(text):
+    """Short stand-in for a canonical AST text (the texts are kilobytes, hundreds of thousands of them are compared)."""
+    return hashlib.blake2b(text.encode(), digest_size=16).hexdigest()
+
+
 def _expanded(key, al):
+    """Digest of the canonical text of the statement a key stands for (memoised per worker)."""
     text = json.dumps(key)
     if text not in _EXPANDED:
-        node = expand(key, al)
-        _EXPANDED[text] = (node, g.canon(node))
+        _EXPANDED[text] = digest(g.canon(expand(key, al)))
     return _EXPANDED[text]
 
 
@@ -450,12 +457,16 @@ def explore(chk, name, depth, ast_depth, workers, procs):
                 if not seen['rule', r]]
     if missing:
         raise tlc.MachineryError(f'Statements[{name}] vacuous: never exercised {missing}')
+    for e in lines:  # keep only a digest of the statement text TLC printed (memory)
+        e['ast'] = digest(g.canon(e['ast'])) if e['ast'].get('t') != 'nil' else ''
     rnd = random.Random(chk.seed)
     rnd.shuffle(lines)
     chunks = [lines[i::procs * 8] for i in range(procs * 8)]
     chunks = [c for c in chunks if c]
-    with multiprocessing.get_context('fork').Pool(procs, initializer=_init_worker, initargs=(al,)) as pool:
-        results = pool.map(_replay_lines, chunks, chunksize=1)
+    # (an executor, not multiprocessing.Pool: a worker that dies must fail the run instead of hanging it)
+    with concurrent.futures.ProcessPoolExecutor(procs, mp_context=multiprocessing.get_context('fork'),
+                                                initializer=_init_worker, initargs=(al,)) as pool:
+        results = list(pool.map(_replay_lines, chunks))
     stats = collections.Counter()
     for st, fails, samples in results:
         stats.update(st)
@@ -504,8 +515,8 @@ def trace_validate(chk, stmts, procs, label):
     """Build every generator statement and its violations on the real DSL; TraceStatements.tla judges each observation."""
     t0 = time.time()
     chunks = [stmts[i:i + 25] for i in range(0, len(stmts), 25)]
-    with multiprocessing.get_context('fork').Pool(procs) as pool:
-        produced = list(itertools.chain.from_iterable(pool.map(_observe, chunks, chunksize=1)))
+    with concurrent.futures.ProcessPoolExecutor(procs, mp_context=multiprocessing.get_context('fork')) as pool:
+        produced = list(itertools.chain.from_iterable(pool.map(_observe, chunks)))
     seen, items, observed = set(), [], []
     for lab, node, o in produced:
         key = g.canon(node)
@@ -612,12 +623,12 @@ def main(chk):
         explore(chk, 'core', 4, 4, procs, procs)
     else:
         explore(chk, 'wide', 3, 3, procs, procs)
-        explore(chk, 'core', 5, 5, procs, procs)
+        explore(chk, 'core', 5, 3, procs, procs)
     trace_validate(chk, generator_statements(chk, rnd), procs, 'gen')
     # binding self-test of the replay comparison itself: a flipped expected outcome is noticed
     al = alphabet('core')
     _init_worker(al)
-    line = {'h': [], 'k': ['start', 1, '', [], 0, 0, [], 0, [], 0, 0], 'ast': g.NIL_S,
+    line = {'h': [], 'k': ['start', 1, '', [], 0, 0, [], 0, [], 0, 0], 'ast': '',
             'sch': [{'name': n, 'kind': k} for n, k in g.CATALOG['A']],
             'asis': [{'name': n, 'kind': k} for n, k in g.CATALOG['A']], 'v': [-1] * len(al['calls'])}
     bad = dict(line, v=[{'b': ['subset']}] + line['v'][1:])          # select(A.i) on A is fine: expecting a refusal must fail
